@@ -724,6 +724,10 @@ def string_token_rule(run, R="TAB-op"):
     for h in tk.reachable():
         in_loop |= natural_loop(tk, h)
     tok_backslash = [b for b in char_tests(tk, 92) if b in in_loop]
+    # ... or hands the backslash to a helper of the scanner that tests for it (`consume_char('\\')`)
+    for bi, t in tk.calls():
+        if bi in in_loop and any(isinstance(a, dict) and a.get("ty") == "char" and str(a.get("int")) == "92" for a in t["args"]):
+            tok_backslash.append(bi)
     run.check((not reader_knows_quote) or bool(tok_backslash), R, R + "|string|escaped-quote", tk.loc(),
               "the string tokenizer steps over escaped characters, so an escaped double quote does not end the literal",
               "the escape reader implements the escaped double quote, but check_for_string ends the token at the first double quote without looking for a backslash: a literal containing backslash-quote fails with `invalid escape sequence`")
